@@ -3,6 +3,7 @@ package rules
 import (
 	"fmt"
 	"go/token"
+	"go/types"
 	"sort"
 
 	"golang.org/x/tools/go/ssa"
@@ -57,6 +58,49 @@ func c09alloc(c *core.Ctx, r *core.Reporter) {
 			}
 		}
 	}
+	// functions with an []int parameter an element of which reaches a make size (NewArray, Octets.Adjust, ...):
+	// by function for static calls, by method name for calls through an interface (VectorLike.Adjust)
+	allocDims := map[*ssa.Function]bool{}
+	allocDimsNames := map[string]bool{}
+	for _, fn := range c.ModuleFuncs() {
+		if fn.Pkg == nil || takesTestingT(fn) || fn.Parent() != nil || fn.Blocks == nil {
+			continue
+		}
+		for _, p := range fn.Params {
+			if _, ok := p.Type().Underlying().(*types.Slice); !ok || !isIntList(p.Type()) {
+				continue
+			}
+			elems := map[ssa.Value]bool{}
+			for _, rf := range *p.Referrers() {
+				if ia, ok := rf.(*ssa.IndexAddr); ok {
+					for _, r2 := range *ia.Referrers() {
+						if u, ok := r2.(*ssa.UnOp); ok {
+							elems[u] = true
+						}
+					}
+				}
+			}
+			for _, b := range fn.Blocks {
+				for _, in := range b.Instrs {
+					ms, ok := in.(*ssa.MakeSlice)
+					if !ok {
+						continue
+					}
+					for e := range elems {
+						if intRoots(ms.Len, 0)[e] || intRoots(ms.Cap, 0)[e] {
+							if cmpBoundsRoots(fn, ms.Block(), an.NoReturn, intRoots(ms.Len, 0)) {
+								continue // the allocator bounds the size itself (NewArray, NewVector)
+							}
+							allocDims[fn] = true
+							if fn.Signature.Recv() != nil {
+								allocDimsNames[fn.Name()] = true
+							}
+						}
+					}
+				}
+			}
+		}
+	}
 	lispInt := func(v ssa.Value) bool {
 		if derivesFromLispInt(v, 0) || core.IsNamed(v.Type(), core.SlipPath, "Fixnum") {
 			return true
@@ -89,6 +133,12 @@ func c09alloc(c *core.Ctx, r *core.Reporter) {
 		for _, b := range fn.Blocks {
 			for _, in := range b.Instrs {
 				switch x := in.(type) {
+				case *ssa.Store:
+					// a Lisp integer stored into a list of ints (the dimensions handed to an array allocator
+					// behind an interface: VectorLike.Adjust, NewArray): the same obligation as a make size
+					if ia, ok := x.Addr.(*ssa.IndexAddr); ok && isIntList(ia.X.Type()) && lispInt(x.Val) && handsDimsToAllocator(fn, allocDims, allocDimsNames) {
+						sites = append(sites, site{fn, in, x.Val, "dimension list"})
+					}
 				case *ssa.MakeChan:
 					if lispInt(x.Size) {
 						sites = append(sites, site{fn, in, x.Size, "make(chan)"})
@@ -384,4 +434,94 @@ func intRoots(v ssa.Value, depth int) map[ssa.Value]bool {
 var allocExceptions = map[string]string{
 	"pkg/watch.(framerChangedCaller).Call|size handed to drawBorder": "the Lisp integer (the frame's left column) is subtracted from the terminal width: the size is bounded above by the width of the terminal; reaching the call needs a connected watch client",
 	"pkg/watch.drawFrame|size handed to drawBorder":                  "the Lisp integer (the frame's left column) is subtracted from the terminal width: the size is bounded above by the width of the terminal; reaching the call needs a connected watch client",
+}
+
+// isIntList: []int, [N]int or a pointer to one.
+func isIntList(t types.Type) bool {
+	if p, ok := t.Underlying().(*types.Pointer); ok {
+		t = p.Elem()
+	}
+	var el types.Type
+	switch x := t.Underlying().(type) {
+	case *types.Slice:
+		el = x.Elem()
+	case *types.Array:
+		el = x.Elem()
+	default:
+		return false
+	}
+	b, ok := el.Underlying().(*types.Basic)
+	return ok && b.Kind() == types.Int
+}
+
+// handsDimsToAllocator: fn passes a list of ints to a function (or, through an interface, to a method of a name)
+// that sizes an allocation by one of its elements.
+func handsDimsToAllocator(fn *ssa.Function, allocDims map[*ssa.Function]bool, names map[string]bool) bool {
+	for _, b := range fn.Blocks {
+		for _, in := range b.Instrs {
+			call, ok := in.(ssa.CallInstruction)
+			if !ok {
+				continue
+			}
+			cc := call.Common()
+			hasList := false
+			for _, a := range cc.Args {
+				if _, ok := a.Type().Underlying().(*types.Slice); ok && isIntList(a.Type()) {
+					hasList = true
+				}
+			}
+			if !hasList {
+				continue
+			}
+			if cc.IsInvoke() {
+				if names[cc.Method.Name()] {
+					return true
+				}
+			} else if cal := cc.StaticCallee(); cal != nil && allocDims[cal] {
+				return true
+			}
+		}
+	}
+	return false
+}
+
+// cmpBoundsRoots: every path to block at crosses a comparison with one of roots on the small side and none of
+// them on the big side (an upper bound for the value computed from roots).
+func cmpBoundsRoots(fn *ssa.Function, at *ssa.BasicBlock, noReturn func(*ssa.Function) bool, roots map[ssa.Value]bool) bool {
+	return core.Separates(fn, at, noReturn, func(ifi *ssa.If, branch bool) bool {
+		bo, ok := ifi.Cond.(*ssa.BinOp)
+		if !ok {
+			return false
+		}
+		var small, big ssa.Value
+		switch bo.Op {
+		case token.LSS, token.LEQ:
+			small, big = bo.X, bo.Y
+		case token.GTR, token.GEQ:
+			small, big = bo.Y, bo.X
+		default:
+			return false
+		}
+		if !branch {
+			small, big = big, small
+		}
+		hit := false
+		for v := range intRoots(small, 0) {
+			if roots[v] {
+				hit = true
+			}
+		}
+		if !hit {
+			return false
+		}
+		for v := range intRoots(big, 0) {
+			if roots[v] {
+				return false
+			}
+		}
+		if cst, ok := big.(*ssa.Const); ok && cst.Value != nil && cst.Int64() <= 0 {
+			return false
+		}
+		return true
+	})
 }
